@@ -86,11 +86,11 @@ func cyclic(b *ssa.BasicBlock) bool {
 
 // hasBindingRule (C09/C03): HasLocalFeatureRemoteBinding queries the bindings
 // on its first argument and compares the entries' client address with its second.
-func hasBindingRule(p *Prog, r *Report) {
-	r.Rule("R6", "HasLocalFeatureRemoteBinding looks up the bindings on its local-address argument and reports true only for an entry whose client feature address equals its remote-address argument")
+func hasBindingRule(p *Prog, r *Report, rule string) {
+	r.Rule(rule, "HasLocalFeatureRemoteBinding looks up the bindings on its local-address argument and reports true only for an entry whose client feature address equals its remote-address argument")
 	bmi := p.LookupIface("api", "BindingManagerInterface")
 	if bmi == nil {
-		r.Undecided("R6", "anchor:api.BindingManagerInterface", "", "interface not found")
+		r.Undecided(rule, "anchor:api.BindingManagerInterface", "", "interface not found")
 		return
 	}
 	for _, fn := range p.ImplsOf(bmi, "HasLocalFeatureRemoteBinding") {
@@ -102,11 +102,11 @@ func hasBindingRule(p *Prog, r *Report) {
 			}
 		})
 		if query == nil {
-			r.Undecided("R6", base+"|query", p.Pos(fn.Pos()), "no BindingsOnFeature call")
+			r.Undecided(rule, base+"|query", p.Pos(fn.Pos()), "no BindingsOnFeature call")
 			continue
 		}
 		qa := Path(callArgs(&query.Call)[0])
-		r.Check("R6", base+"|query-arg", qa == "param:"+fn.Params[1].Name(), p.InstrPos(query), "bindings are looked up on "+qa)
+		r.Check(rule, base+"|query-arg", qa == "param:"+fn.Params[1].Name(), p.InstrPos(query), "bindings are looked up on "+qa)
 		// every "return true" is guarded by DeepEqual(elem.ClientFeature.Address(), remoteAddress) == true
 		nTrue, okTrue := 0, true
 		for _, b := range fn.Blocks {
@@ -119,6 +119,7 @@ func hasBindingRule(p *Prog, r *Report) {
 			}
 			nTrue++
 			found := false
+			parts := map[string]bool{}
 			for _, g := range Guards(b) {
 				call, ok := g.Cond.(*ssa.Call)
 				if !ok || !g.Val {
@@ -136,12 +137,24 @@ func hasBindingRule(p *Prog, r *Report) {
 				if (isElem(l) && rr == want) || (isElem(rr) && l == want) {
 					found = true
 				}
+				// component-wise comparison: all three parts of the address must be compared
+				for _, part := range []string{"Device", "Entity", "Feature"} {
+					isElemPart := func(s string) bool {
+						return strings.Contains(s, "BindingsOnFeature()") && strings.HasSuffix(s, ".ClientFeature.Address()."+part)
+					}
+					if (isElemPart(l) && rr == want+"."+part) || (isElemPart(rr) && l == want+"."+part) {
+						parts[part] = true
+					}
+				}
+			}
+			if len(parts) == 3 {
+				found = true
 			}
 			if !found {
 				okTrue = false
 			}
 		}
-		r.Check("R6", base+"|match", nTrue > 0 && okTrue, p.Pos(fn.Pos()), "true is returned only under DeepEqual(entry.ClientFeature.Address(), remote address argument)")
+		r.Check(rule, base+"|match", nTrue > 0 && okTrue, p.Pos(fn.Pos()), "true is returned only under equality of the entry's whole client feature address (device, entity and feature) with the remote address argument")
 	}
 }
 
